@@ -12,7 +12,10 @@ var asciiPlain = []rune("abcdefghijklmnopqrstuvwxyzABCDEFGHIJKLMNOPQRSTUVWXYZ012
 var hostile = []rune{'"', '\\', '(', ')', '@', '.', ',', '\'', '\n', '\t', '\r', '[', ']', '{', '}', ':', ';', '`', '%', '$', '#', '&', '|', '/', '*', '+', '-', '=', '!', '~', '<', '>', '^', '?', '_'}
 var unicodeMix = []rune{'é', 'ß', 'İ', 'ı', 'ǅ', 'Σ', 'ς', 'я', 'ض', '中', '日', '한', '\u0301', '\u200b', '\u00a0', '\u2003', '😀', '𝔘', '\U0001F1FA', 'ﬁ', '٣', '५', '²', '½', '\u00ad', '\ufeff', '\u202e', '\ufffd', '\ufffd'}
 var controls = []rune{'\x01', '\x07', '\x08', '\x0b', '\x0c', '\x1b', '\x1f', '\x7f', '\u0085'}
-var words = []string{"AND", "OR", "and", "or", "true", "false", "null", "name", "=", "!=", "~", "<=", ">=", "<", ">", "@(", "@@", "@contact", "@fields.age", "\\\"", "\\\\", "\\n", "\\u00e9", "\\x", "\"\"", "\" OR \"", "1 / 0", "10", "-1", "1.5", "2020-01-01", "31/12/1999", "12:30", "+12065551212", "tel:+250788123456", "foo@bar.com", "yes", "no", "  ", "\\"}
+var words = []string{"AND", "OR", "and", "or", "true", "false", "null", "name", "=", "!=", "~", "<=", ">=", "<", ">", "@(", "@@", "@contact", "@fields.age", "\\\"", "\\\\", "\\n", "\\u00e9", "\\x", "\"\"", "\" OR \"", "1 / 0", "10", "-1", "1.5", "2020-01-01", "31/12/1999", "12:30", "+12065551212", "tel:+250788123456", "foo@bar.com", "yes", "no", "  ", "\\",
+	// decomposed (NFD) and otherwise normalisation-sensitive words: code that normalises, folds or re-tokenizes text must still
+	// find its own tokens in the original
+	"Nu\u0301n\u0303ez", "cafe\u0301", "A\u030angstro\u0308m", "\u1100\u1161\u11a8", "\ufb01sh", "\u212b", "I\u0307stanbul"}
 
 // Rune draws one rune from the weighted alphabets (never NUL, always valid UTF-8).
 func Rune(t *rapid.T) rune {
